@@ -903,6 +903,9 @@ def run(prog: Program, chk: Check) -> None:  # noqa: F811
     guard(chk, r12_9, prog, chk)
     guard(chk, r12_10, prog, chk)
     guard(chk, r12_11, prog, chk)
+    guard(chk, r12_12, prog, chk)
+    guard(chk, r12_13, prog, chk)
+    guard(chk, r12_14, prog, chk)
 
 # ------------------------------------------------------------------- R12.11
 def _null_yielding_scope_managers(prog: Program) -> Dict[str, ast.AST]:
@@ -1044,3 +1047,163 @@ def r12_11(prog: Program, chk: Check) -> None:
     chk.analysed["optional_scope_bindings"] = n_bind
     if n_bind < 6:
         raise AnchorError(f"only {n_bind} `with ... as x` bindings of optional scope managers found (expected the loop / if / try visitors)")
+
+
+# ------------------------------------------------------------------- R12.12
+def r12_12(prog: Program, chk: Check) -> None:
+    chk.rule(
+        "R12.12",
+        "a digit test that guards int() is the one int() agrees with: `int(s)` on a string that a test of the same string lets through is guarded by `s.isdecimal()` (or runs under a "
+        "handler that catches ValueError) - `str.isdigit()` and `str.isnumeric()` also accept characters such as '²' or '①' that int() rejects with ValueError, which escapes as "
+        "internal_error when the string is a field name of a format string of the checked program",
+        floor=1,
+    )
+    n = 0
+    for m, q, fn in prog.iter_functions():
+        for call in walk_no_nested(fn):
+            if not (isinstance(call, ast.Call) and isinstance(call.func, ast.Name) and call.func.id == "int" and len(call.args) == 1 and isinstance(call.args[0], (ast.Name, ast.Attribute))):
+                continue
+            subject = norm(call.args[0])
+            tests: List[str] = []
+            child, cur = call, parent(call)
+            while cur is not None and child is not fn:
+                if isinstance(cur, ast.If) and child in cur.body:
+                    tests += [norm(t) for t in _conjuncts(cur.test)]
+                if isinstance(cur, ast.IfExp) and child is cur.body:
+                    tests += [norm(t) for t in _conjuncts(cur.test)]
+                child, cur = cur, parent(cur)
+            digit_tests = [t for t in tests if t in (f"{subject}.isdecimal()", f"{subject}.isdigit()", f"{subject}.isnumeric()")]
+            if not digit_tests:
+                continue
+            t = _enclosing_try(call, fn)
+            caught = t is not None and (_handler_is_broad(t) or any("ValueError" in norm(h.type) for h in t.handlers if h.type is not None))
+            n += 1
+            chk.ob(
+                "R12.12",
+                f"{m}::{q}::int({subject})",
+                caught or f"{subject}.isdecimal()" in digit_tests,
+                prog.site(m, call),
+                f"`int({subject})` is guarded by `{digit_tests[0]}`, which lets through characters int() rejects (e.g. '²'): ValueError -> internal_error",
+            )
+    chk.analysed["digit_guarded_int_conversions"] = n
+
+
+# ------------------------------------------------------------------- R12.13
+def r12_13(prog: Program, chk: Check) -> None:
+    chk.rule(
+        "R12.13",
+        "the safe_* wrappers guard the whole operation: in every `safe_*` function of pyanalyze.safe (and is_hashable) - the helpers the value layer calls on objects of the checked "
+        "program - a handler catches Exception, and nothing outside the guarded block can run code of those objects: no call, comparison, truth test, subscript or attribute access on "
+        "a parameter or on a result computed from one (`bool(left == right)` converts a numpy-style comparison result whose __bool__ raises - outside the guard that is an "
+        "internal_error for every literal comparison of such objects)",
+        floor=5,
+    )
+    mod = prog.module("safe")
+    n = 0
+    for st in mod.tree.body:
+        if not (isinstance(st, ast.FunctionDef) and (st.name.startswith("safe_") or st.name == "is_hashable")):
+            continue
+        n += 1
+        tries = [s for s in st.body if isinstance(s, ast.Try)]
+        broad = bool(tries) and all(_handler_is_broad(t) for t in tries)
+        chk.ob("R12.13", f"safe::{st.name}::catches-Exception", broad, prog.site("safe", st), f"`{st.name}` promises not to raise: its operation must run under `except Exception`")
+        params = {a.arg for a in st.args.args + st.args.kwonlyargs}
+        tainted = set(params)
+        for _ in range(3):
+            for node in ast.walk(st):
+                if isinstance(node, ast.Assign) and any(isinstance(x, ast.Name) and x.id in tainted for x in ast.walk(node.value)):
+                    tainted |= {x.id for t in node.targets for x in ast.walk(t) if isinstance(x, ast.Name)}
+        guarded_nodes = {id(x) for t in tries for b in t.body for x in ast.walk(b)}
+        outside = []
+        for node in ast.walk(st):
+            if id(node) in guarded_nodes or node is st:
+                continue
+            runs_user_code = (
+                (isinstance(node, (ast.Call, ast.Compare, ast.Subscript, ast.BinOp)) or (isinstance(node, ast.Attribute) and isinstance(node.ctx, ast.Load))
+                 or (isinstance(node, ast.UnaryOp) and isinstance(node.op, ast.Not)) or isinstance(node, (ast.If, ast.IfExp, ast.BoolOp, ast.While)))
+                and any(isinstance(x, ast.Name) and x.id in tainted for x in ast.walk(node))
+            )
+            if runs_user_code and not any(id(node) in {id(y) for y in ast.walk(a)} for a in st.args.args + st.args.kwonlyargs if a.annotation is not None for a in [a.annotation]):
+                outside.append(node)
+        chk.ob(
+            "R12.13",
+            f"safe::{st.name}::nothing-runs-outside-the-guard",
+            not outside,
+            prog.site("safe", outside[0] if outside else st),
+            f"`{norm(outside[0])[:60]}` in `{st.name}` runs code of the object outside the try block: what it raises escapes" if outside else "",
+        )
+    chk.analysed["safe_wrappers"] = n
+
+
+# ------------------------------------------------------------------- R12.14
+def _truth_tests(fn: ast.AST, name: str) -> List[ast.AST]:
+    """Places where the truth value of local `name` is taken (bool() runs the object's __bool__ / __len__)."""
+    out: List[ast.AST] = []
+
+    def is_it(e: ast.AST) -> bool:
+        return isinstance(e, ast.Name) and e.id == name
+
+    for n in walk_no_nested(fn):
+        if isinstance(n, (ast.If, ast.While, ast.IfExp, ast.Assert)) and is_it(n.test):
+            out.append(n.test)
+        elif isinstance(n, ast.UnaryOp) and isinstance(n.op, ast.Not) and is_it(n.operand):
+            out.append(n)
+        elif isinstance(n, ast.BoolOp) and any(is_it(v) for v in n.values[:-1] if True):
+            out.append(n)
+        elif isinstance(n, ast.Call) and isinstance(n.func, ast.Name) and n.func.id == "bool" and n.args and is_it(n.args[0]):
+            out.append(n)
+        elif isinstance(n, ast.comprehension) and any(is_it(c) for c in n.ifs):
+            out.append(n.ifs[0])
+    return out
+
+
+def r12_14(prog: Program, chk: Check) -> None:
+    chk.rule(
+        "R12.14",
+        "the truth value of what user code returned is taken inside the guard: where a try block with a catch-all handler stores the result of an operation on a literal payload "
+        "(`result = op(value.val, pattern)` - a comparison, an operator function, a call of the payload), every place of the function that takes the truth value of that result "
+        "(`if result`, `not result`, `bool(result)`, `and` / `or`) is itself inside a try block that catches Exception (`in` / `is` always give a bool and are exempt): a rich-comparison result (numpy-style arrays, SQL "
+        "expression objects) raises from __bool__, and outside the guard that is an internal_error for a plain `if A == B:` of the checked program",
+        floor=2,
+    )
+    n = 0
+    checked_sites = 0
+    for m, q, fn in prog.iter_functions():
+        if m.startswith("test_") or ".test_" in m:
+            continue
+        tainted = _payload_taint(fn)
+        # a callee that is a local or a parameter: an operator function picked from a table (`op = _OPERATOR[...]`)
+        local_names = {x.id for x in walk_no_nested(fn) if isinstance(x, ast.Name) and isinstance(x.ctx, ast.Store)}
+        if isinstance(fn, (ast.FunctionDef, ast.AsyncFunctionDef)):
+            local_names |= {a.arg for a in fn.args.args + fn.args.kwonlyargs}
+        for t in [x for x in walk_no_nested(fn) if isinstance(x, ast.Try) and x.handlers and _handler_is_broad(x)]:
+            for st in [s for b in t.body for s in ast.walk(b)]:
+                if not (isinstance(st, ast.Assign) and len(st.targets) == 1 and isinstance(st.targets[0], ast.Name)):
+                    continue
+                v = st.value
+                converted = isinstance(v, ast.Call) and isinstance(v.func, ast.Name) and v.func.id == "bool" and len(v.args) == 1
+                if converted:
+                    v = v.args[0]  # bool(<operation>) inside the guard: what is stored is a bool
+                runs_user_code = (
+                    # `in` / `not in` / `is` always produce a bool (the conversion happens inside the expression); == < ... return what the object returns
+                    (isinstance(v, ast.Compare) and any(isinstance(o, (ast.Eq, ast.NotEq, ast.Lt, ast.LtE, ast.Gt, ast.GtE)) for o in v.ops) and any(_is_payload(o, tainted) for o in [v.left] + list(v.comparators)))
+                    or (isinstance(v, ast.Call) and any(_is_payload(a, tainted) for a in v.args) and isinstance(v.func, ast.Name) and v.func.id in local_names)
+                    or (isinstance(v, ast.Call) and _is_payload(v.func, tainted))
+                    or (isinstance(v, ast.BinOp) and (_is_payload(v.left, tainted) or _is_payload(v.right, tainted)))
+                )
+                if not runs_user_code:
+                    continue
+                checked_sites += 1
+                name = st.targets[0].id
+                for test in _truth_tests(fn, name):
+                    tt = _enclosing_try(test, fn)
+                    n += 1
+                    chk.ob(
+                        "R12.14",
+                        f"{m}::{q}::truth-of::{name}::{norm(test)[:40]}",
+                        converted or (tt is not None and _handler_is_broad(tt)),
+                        prog.site(m, test),
+                        f"`{norm(test)[:60]}` takes the truth value of `{name} = {norm(v)[:60]}` (the result of user code) outside a try block that catches Exception: a result whose __bool__ raises escapes as internal_error",
+                    )
+    chk.analysed["truth_tests_of_user_results"] = n
+    chk.analysed["user_results_stored_under_a_guard"] = checked_sites
